@@ -138,3 +138,11 @@ Theorem C20_relocated_full_parsed : forall toks root nodes,
       relocated init (code_of_build r0) (code_of_build r) = true /\ own_code init (code_of_build r) = true.
 Proof. exact C20_relocated_full_parsed_proof. Qed.
 Print Assumptions C20_relocated_full_parsed.
+
+(* the frame of the jump table, for EVERY node array (proper tree or not), every
+   initial state and every fuel: the builder model never asks for a write to a
+   jump-table entry below the initial jump-table length *)
+Theorem C20_no_foreign_jump_builder : forall nodes init lit fuel root,
+  build nodes init lit fuel root <> Err E_foreign_jump.
+Proof. exact C20_no_foreign_jump_builder_proof. Qed.
+Print Assumptions C20_no_foreign_jump_builder.
